@@ -3,9 +3,12 @@
 Translated every run from the working tree:
   * the one-line helpers `intersect`, `difference`, `unique_size`, `normalize`, `glob` (expression dialect
     below: `set`, `bool`, `len`, `&`, `-`, `.lower()`, `.strip()`, `fnmatch.fnmatch[case]`, the celtypes wrappers);
-  * `C7NContext.__enter__/__exit__` as state transformers of the module global `C7N`;
-  * whether `C7N_Interpreted_Runner.evaluate` brackets the evaluation with `C7NContext(filter=filter)`;
-  * tables/constants: the `field_names` tuples, separator and prefix of `arn_split`; the `"Key"`/`"Value"` names
+  * `C7NContext.__enter__/__exit__` as state transformers of the module global `C7N` (one level of a private
+    helper method whose body is the single `global C7N` rebinding is inlined, see `_Helpers`);
+  * whether `C7N_Interpreted_Runner.evaluate` brackets the evaluation with `C7NContext(filter=filter)` (assignment or
+    `return` inside the block; no evaluation outside it, none deferred);
+  * tables/constants: the `field_names` tuples (local, or ONE module-level literal constant that is bound once and only
+    ever read as `NAME[…]`, see `_arn_table_constant`), separator and prefix of `arn_split`; the `"Key"`/`"Value"` names
     of `key`; the split calls, the strip and the result keys of `marked_key`; the exceptions `parse_cidr`
     turns into None; the class test of `size_parse_cidr`; `ComparableVersion`'s base class; the names bound
     by FUNCTIONS / DECLARATIONS.
@@ -13,6 +16,7 @@ Anything outside the subset raises TranslationError (handled like a broken bridg
 """
 from __future__ import annotations
 import ast
+import copy
 from typing import List
 
 from .py2lean import TranslationError, find_func, find_class, strip_doc, is_logger_call, lean_str, lean_list
@@ -548,7 +552,88 @@ def _c7n_value(v) -> str:
     raise TranslationError(f"value assigned to C7N: {ast.unparse(v)[:60]}")
 
 
-def ctx_block(stmts, cur: str, allow_cond: bool) -> str:
+def _declares_global(fn: ast.FunctionDef, name: str) -> bool:
+    """`global <name>` among the function's own statements (not inside a nested def/class/lambda)"""
+    def walk(nodes):
+        for n in nodes:
+            if isinstance(n, ast.Global) and name in n.names:
+                return True
+            if isinstance(n, (ast.FunctionDef, ast.AsyncFunctionDef, ast.ClassDef, ast.Lambda)):
+                continue
+            if walk(list(ast.iter_child_nodes(n))):
+                return True
+        return False
+    return walk(fn.body)
+
+
+class _Helpers:
+    """One level of inlining for `self.<m>(x)` / `C7NContext.<m>(x)` statements in `__enter__`/`__exit__`: `<m>` is a method
+    of C7NContext, defined once, a `@staticmethod` of one parameter (or a plain method `(self, p)` called through `self`),
+    never re-bound as an attribute anywhere in the module, whose whole body is `global C7N` + ONE `C7N = <value>`
+    (docstring, `pass`, a final bare `return` apart).  The statement then IS that rebinding with the argument put in
+    place of the parameter.  Anything else: TranslationError."""
+
+    def __init__(self, mod: ast.Module, cls: ast.ClassDef):
+        self.mod, self.cls = mod, cls
+
+    def inline(self, call: ast.Call) -> ast.expr:
+        """→ the expression assigned to the global C7N by this call"""
+        fn = call.func
+        if not (isinstance(fn, ast.Attribute) and isinstance(fn.value, ast.Name) and fn.value.id in ("self", self.cls.name)):
+            raise TranslationError(f"call {ast.unparse(call)[:50]} in a context method")
+        via_self = fn.value.id == "self"
+        name = fn.attr
+        if call.keywords or len(call.args) != 1 or isinstance(call.args[0], ast.Starred):
+            raise TranslationError(f"{name}(): call shape")
+        defs = [n for n in ast.walk(self.cls) if isinstance(n, (ast.FunctionDef, ast.AsyncFunctionDef, ast.ClassDef)) and n.name == name]
+        direct = [n for n in self.cls.body if isinstance(n, ast.FunctionDef) and n.name == name]
+        if len(defs) != 1 or len(direct) != 1:
+            raise TranslationError(f"C7NContext.{name} is not defined exactly once as a method")
+        for n in ast.walk(self.mod):      # `self.m = …`, `C7NContext.m = …`, `del x.m`, `m = …` in the class body, setattr(…, "m", …)
+            if isinstance(n, ast.Attribute) and n.attr == name and not isinstance(n.ctx, ast.Load):
+                raise TranslationError(f"attribute {name} is re-bound")
+            if isinstance(n, ast.Constant) and n.value == name:
+                raise TranslationError(f"the name {name!r} occurs as a string (setattr?)")
+        for n in ast.walk(self.cls):
+            if isinstance(n, ast.Name) and n.id == name and not isinstance(n.ctx, ast.Load):
+                raise TranslationError(f"{name} is re-bound in the class body")
+        h = direct[0]
+        a = h.args
+        if a.vararg or a.kwarg or a.kwonlyargs or a.defaults or a.kw_defaults or a.posonlyargs:
+            raise TranslationError(f"{name}(): parameter list")
+        names = [x.arg for x in a.args]
+        decos = [ast.unparse(d) for d in h.decorator_list]
+        if decos == ["staticmethod"] and len(names) == 1:
+            param = names[0]
+            if any(isinstance(n, ast.Name) and n.id == "self" for n in ast.walk(h)):
+                raise TranslationError(f"{name}(): a @staticmethod mentions `self`")
+        elif decos == [] and len(names) == 2 and names[0] == "self" and via_self:
+            param = names[1]
+        else:
+            raise TranslationError(f"{name}(): neither a @staticmethod of one parameter nor a plain method called through self")
+        if param in ("C7N", "self", "cast"):
+            raise TranslationError(f"{name}(): parameter named {param}")
+        if not _declares_global(h, "C7N"):
+            raise TranslationError(f"{name}() does not declare `global C7N`")
+        body = [s for s in strip_doc(h.body) if not is_logger_call(s) and not isinstance(s, ast.Pass)]
+        if body and isinstance(body[-1], ast.Return) and (body[-1].value is None or (
+                isinstance(body[-1].value, ast.Constant) and body[-1].value.value is None)):
+            body = body[:-1]
+        rest = [s for s in body if not isinstance(s, ast.Global)]
+        if any(g.names != ["C7N"] for g in body if isinstance(g, ast.Global)):
+            raise TranslationError(f"{name}() declares another global")
+        if len(rest) != 1 or not (isinstance(rest[0], ast.Assign) and len(rest[0].targets) == 1
+                                  and isinstance(rest[0].targets[0], ast.Name) and rest[0].targets[0].id == "C7N"):
+            raise TranslationError(f"{name}(): body is not the single rebinding `C7N = <value>`")
+        arg = call.args[0]
+
+        class Sub(ast.NodeTransformer):
+            def visit_Name(self, node):
+                return arg if node.id == param else node
+        return Sub().visit(copy.deepcopy(rest[0].value))
+
+
+def ctx_block(stmts, cur: str, allow_cond: bool, has_global: bool = True, helpers: "_Helpers" = None) -> str:
     """Lean expression of type `Option Nat × Bool`: (C7N afterwards, return value truthy)"""
     stmts = [s for s in strip_doc(stmts) if not is_logger_call(s)]
     for i, st in enumerate(stmts):
@@ -556,7 +641,13 @@ def ctx_block(stmts, cur: str, allow_cond: bool) -> str:
             continue
         if isinstance(st, ast.Assign) and len(st.targets) == 1 and isinstance(st.targets[0], ast.Name) \
                 and st.targets[0].id == "C7N":
+            if not has_global:
+                raise TranslationError("a context method assigns C7N without `global C7N` (a local)")
             v = _c7n_value(st.value)
+            cur = cur if v == "c7n" else v
+            continue
+        if isinstance(st, ast.Expr) and isinstance(st.value, ast.Call) and helpers is not None:
+            v = _c7n_value(helpers.inline(st.value))
             cur = cur if v == "c7n" else v
             continue
         if isinstance(st, ast.Return):
@@ -568,11 +659,30 @@ def ctx_block(stmts, cur: str, allow_cond: bool) -> str:
         if isinstance(st, ast.If) and allow_cond:
             c = _exc_cond(st.test)
             rest = stmts[i + 1:]
-            thn = ctx_block(list(st.body) + rest, cur, allow_cond)
-            els = ctx_block(list(st.orelse) + rest, cur, allow_cond)
+            thn = ctx_block(list(st.body) + rest, cur, allow_cond, has_global, helpers)
+            els = ctx_block(list(st.orelse) + rest, cur, allow_cond, has_global, helpers)
             return f"(if {c} then {thn} else {els})"
         raise TranslationError(f"statement {type(st).__name__} in a context method")
     return f"({cur}, false)"
+
+
+def _eval_calls(stmts) -> list:
+    """calls `<receiver>.evaluate(context)` executed by these statements themselves (a call inside a lambda, a nested
+    def/class or a generator expression is deferred: TranslationError, such code is not followed)"""
+    found = []
+
+    def walk(n, deferred):
+        if isinstance(n, ast.Call) and isinstance(n.func, ast.Attribute) and n.func.attr == "evaluate" and not n.keywords \
+                and len(n.args) == 1 and isinstance(n.args[0], ast.Name) and n.args[0].id == "context":
+            if deferred:
+                raise TranslationError("evaluate(): the evaluation is deferred (lambda / nested def / generator)")
+            found.append(n)
+        d = deferred or isinstance(n, (ast.Lambda, ast.FunctionDef, ast.AsyncFunctionDef, ast.ClassDef, ast.GeneratorExp))
+        for c in ast.iter_child_nodes(n):
+            walk(c, d)
+    for st in stmts:
+        walk(st, False)
+    return found
 
 
 def gen_ctx(mod: ast.Module) -> List[str]:
@@ -585,10 +695,13 @@ def gen_ctx(mod: ast.Module) -> List[str]:
     ok_init = any(isinstance(s, ast.Assign) and ast.unparse(s).replace(" ", "") == "self.filter=filter" for s in init.body)
     if not ok_init:
         raise TranslationError("C7NContext.__init__ does not store `filter`")
+    if enter.decorator_list or exit_.decorator_list:
+        raise TranslationError("decorated context method")
+    helpers = _Helpers(mod, cls)
     out = ["/-- `C7NContext.__enter__`: value of the module global `C7N` afterwards -/",
-           f"def ctxEnter (self : Nat) (c7n : Option Nat) : Option Nat :=\n  ({ctx_block(enter.body, 'c7n', False)}).1\n",
+           f"def ctxEnter (self : Nat) (c7n : Option Nat) : Option Nat :=\n  ({ctx_block(enter.body, 'c7n', False, _declares_global(enter, 'C7N'), helpers)}).1\n",
            "/-- `C7NContext.__exit__`: (value of `C7N` afterwards, whether the exception is swallowed) -/",
-           f"def ctxExitPair (self : Nat) (excRaised : Bool) (c7n : Option Nat) : Option Nat × Bool :=\n  {ctx_block(exit_.body, 'c7n', True)}\n"]
+           f"def ctxExitPair (self : Nat) (excRaised : Bool) (c7n : Option Nat) : Option Nat × Bool :=\n  {ctx_block(exit_.body, 'c7n', True, _declares_global(exit_, 'C7N'), helpers)}\n"]
     # the module-level initial value
     init_val = None
     for st in mod.body:
@@ -617,8 +730,11 @@ def gen_ctx(mod: ast.Module) -> List[str]:
             if (isinstance(ce, ast.Call) and _dotted(ce.func) == "C7NContext" and
                     ((len(ce.keywords) == 1 and ce.keywords[0].arg == "filter" and ast.unparse(ce.keywords[0].value) == "filter")
                      or (len(ce.args) == 1 and ast.unparse(ce.args[0]) == "filter"))):
-                inner = ast.unparse(ast.Module(body=node.body, type_ignores=[]))
-                if ".evaluate(context)" in inner:
+                # the evaluation is a statement of the block itself - `v = <e>.evaluate(context)` or `return <e>.evaluate(context)`
+                # (leaving the block by `return` runs __exit__ first, like falling off its end) -, not deferred into a
+                # lambda / nested def / generator, and no evaluation happens outside the bracket
+                inside = [c for c in _eval_calls(node.body)]
+                if inside and len(inside) == len(_eval_calls(ev.body)):
                     brackets = True
     out.append("/-- `C7N_Interpreted_Runner.evaluate` runs the evaluation inside `with C7NContext(filter=filter)` -/")
     out.append(f"def runnerBrackets : Bool := {'true' if brackets else 'false'}\n")
@@ -633,6 +749,70 @@ def _str_const(e) -> str:
     if isinstance(e, ast.Call) and _dotted(e.func) in ("celtypes.StringType", "StringType") and len(e.args) == 1:
         return _str_const(e.args[0])
     raise TranslationError(f"string constant expected: {ast.unparse(e)[:50]}")
+
+
+def _literal_table(d) -> list:
+    """`{5: (...), 6: (...)}` written out: every key is the length of its tuple of string constants"""
+    if not (isinstance(d, ast.Dict) and d.keys and all(isinstance(v, ast.Tuple) for v in d.values)):
+        raise TranslationError("arn_split: the table is not a literal {n: (names…)}")
+    ts = [[_str_const(x) for x in t.elts] for t in d.values]
+    for k, t in zip(d.keys, ts):
+        if not (isinstance(k, ast.Constant) and type(k.value) is int and k.value == len(t)):
+            raise TranslationError("arn_split: field_names entry not keyed by the length of its tuple")
+    if len({len(t) for t in ts}) != len(ts):
+        raise TranslationError("arn_split: two entries with the same key")
+    return ts
+
+
+def _arn_table_constant(mod: ast.Module, arn: ast.FunctionDef):
+    """The table of `arn_split` reached through ONE level of module-level constant: a name the function only reads as
+    `NAME[…]`, that is not a parameter/local of it, is bound exactly once in the whole module - by a top-level
+    `NAME = {…}` / `NAME: T = {…}` with a literal table, before nothing else can see it change: no other store/del/global/
+    import/def of the name anywhere, and EVERY other mention of it in the module is a read `NAME[…]` (so no alias, no call
+    that receives it, no `.update`/`.pop`/`NAME[k] = …`/`del NAME[k]`; the values are tuples of strings, immutable)."""
+    parent = {}
+    for n in ast.walk(mod):
+        for c in ast.iter_child_nodes(n):
+            parent[c] = n
+    local = {a.arg for a in arn.args.args + arn.args.kwonlyargs + arn.args.posonlyargs}
+    for n in ast.walk(arn):
+        if isinstance(n, ast.Name) and not isinstance(n.ctx, ast.Load):
+            local.add(n.id)
+        if isinstance(n, (ast.Global, ast.Nonlocal)):
+            raise TranslationError("arn_split: global/nonlocal declaration")
+    cands = sorted({n.value.id for n in ast.walk(arn) if isinstance(n, ast.Subscript) and isinstance(n.value, ast.Name)
+                    and n.value.id not in local})
+    if len(cands) != 1:
+        return None
+    name = cands[0]
+    binds = [st for st in mod.body
+             if (isinstance(st, ast.Assign) and len(st.targets) == 1 and isinstance(st.targets[0], ast.Name) and st.targets[0].id == name)
+             or (isinstance(st, ast.AnnAssign) and isinstance(st.target, ast.Name) and st.target.id == name and st.value is not None)]
+    if len(binds) != 1:
+        raise TranslationError(f"arn_split: {name} is not bound exactly once at module level")
+    for n in ast.walk(mod):
+        if isinstance(n, ast.Name) and n.id == name:
+            if isinstance(n.ctx, ast.Load):
+                p = parent.get(n)
+                if not (isinstance(p, ast.Subscript) and p.value is n and isinstance(p.ctx, ast.Load)):
+                    raise TranslationError(f"arn_split: {name} is used other than by reading {name}[…]")
+            elif parent.get(n) is not binds[0]:
+                raise TranslationError(f"arn_split: {name} is re-bound")
+        elif isinstance(n, (ast.Global, ast.Nonlocal)) and name in n.names:
+            raise TranslationError(f"arn_split: `global {name}`")
+        elif isinstance(n, ast.alias) and (n.asname or n.name.split(".")[0]) == name:
+            raise TranslationError(f"arn_split: {name} is also imported")
+        elif isinstance(n, (ast.FunctionDef, ast.AsyncFunctionDef, ast.ClassDef)) and n.name == name:
+            raise TranslationError(f"arn_split: {name} is also a def/class")
+        elif isinstance(n, ast.arg) and n.arg == name:
+            raise TranslationError(f"arn_split: {name} is also a parameter name")
+        elif isinstance(n, ast.ExceptHandler) and n.name == name:
+            raise TranslationError(f"arn_split: {name} is also bound by an except clause")
+        elif isinstance(n, ast.Constant) and n.value == name:
+            raise TranslationError(f"arn_split: the name {name!r} occurs as a string (globals()/setattr?)")
+        elif type(n).__name__ in ("MatchAs", "MatchStar", "MatchMapping") and getattr(n, "name", getattr(n, "rest", None)) == name:
+            raise TranslationError(f"arn_split: {name} is bound by a match pattern")
+    return _literal_table(binds[0].value)
 
 
 def gen_tables(mod: ast.Module) -> List[str]:
@@ -661,6 +841,8 @@ def gen_tables(mod: ast.Module) -> List[str]:
         if isinstance(node, ast.Compare) and isinstance(node.left, ast.Name) and node.left.id == "prefix" \
                 and len(node.ops) == 1 and isinstance(node.ops[0], ast.NotEq):
             prefix = _str_const(node.comparators[0])
+    if tuples is None:
+        tuples = _arn_table_constant(mod, arn)
     if tuples is None or sep is None or prefix is None:
         raise TranslationError("arn_split: field_names / split / prefix test not found")
     out.append("def arnFieldNames : List (List String) := " +
